@@ -167,6 +167,11 @@ theorem funexpected_safe' {α : Type} {st : FState} {tok : Item} {Q : α → FSt
   FSafe.lift (unexpected_safe' ht hv)
 
 omit hz in
+/-- `t.errorfAt(pos, …)`: an error at a position the caller vouches for -/
+theorem ferrorfAt_safe {α : Type} {st : FState} {pos : Nat} {Q : α → FState → Prop} (hp : VPos EL S pos) :
+    FSafe AP EL S (FileParser.errorfAt pos : FP α) st Q := hp
+
+omit hz in
 theorem ftail1_safe {st : FState} {s : Bytes} {Q : Bytes → FState → Prop} (hne : s = [] → AP)
     (hq : ∀ b r, s = b :: r → Q r st) :
     FSafe AP EL S (FileParser.tail1 s) st Q := by
